@@ -20,6 +20,42 @@ structure LeakFree (p : BuildAlg.Prog) (b : Built) : Prop where
   argRes : ∀ s a, s ∈ b.graphTopo → a ∈ p.results s → p.isArg a = true →
     ∃ t, Anc (parent b.owner b.scopeOf) t s ∧ a ∈ lookupL b.argsOf t
 
+theorem anc_of_ancestors {par : Nat → Nat} : ∀ (fuel g t : Nat), t ∈ ancestors par fuel g →
+    Anc par t g := by
+  intro fuel
+  induction fuel with
+  | zero =>
+    intro g t h
+    have : t = g := by simpa [ancestors] using h
+    subst this; exact Anc.refl _
+  | succ fuel ih =>
+    intro g t h
+    simp only [ancestors, List.mem_cons] at h
+    rcases h with h | h
+    · subst h; exact Anc.refl _
+    · exact Anc.trans (ih (par g) t h) ⟨1, by simp [up]⟩
+
+/-- the executable check implies the proposition -/
+theorem leakFree_of_check (p : BuildAlg.Prog) (b : Built) (h : leakFreeB p b = true) :
+    LeakFree p b := by
+  simp only [leakFreeB, Bool.and_eq_true, List.all_eq_true] at h
+  obtain ⟨h1, h2⟩ := h
+  have conv : ∀ c a, (!p.isArg a || (ancestors (parent b.owner b.scopeOf) b.graphTopo.length c).any
+        (fun t => (lookupL b.argsOf t).contains a)) = true → p.isArg a = true →
+      ∃ t, Anc (parent b.owner b.scopeOf) t c ∧ a ∈ lookupL b.argsOf t := by
+    intro c a hok ha
+    simp only [ha, Bool.not_true, Bool.false_or, List.any_eq_true, List.contains_eq_mem,
+      decide_eq_true_eq] at hok
+    obtain ⟨t, ht, hat⟩ := hok
+    exact ⟨t, anc_of_ancestors _ _ _ ht, hat⟩
+  constructor
+  · intro n c a hn hc ha hia
+    have := h1 _ hn
+    simp only [hc] at this
+    exact conv c a (List.all_eq_true.mp this a ha) hia
+  · intro s a hs ha hia
+    exact conv s a (h2 s hs a ha) hia
+
 theorem reach_adjIn_src {p : BuildAlg.Prog} {u : V} {g : Nat} (h : Reach p.adjIn u (.src g)) :
     u = .src g := by
   have key : ∀ w, Reach p.adjIn u w → ∀ g, w = V.src g → u = V.src g := by
